@@ -17,7 +17,8 @@ SPEC = {
     "not_modelled": [
         "TESTED-ONLY (stream, no theorem): html/layout (blocks, inline, tables, flex, grid, columns, floats, absolute, preferred widths), html/boxes box building, html/document drawing, text engines (pango port and go-text), svg and image rendering, css validation / computed values",
         "performance: layout time polynomial or exponential in nesting depth is only observed through the watchdog",
-        "later re-pagination rounds re-using up-to-date pages (statement C01_later_rounds_terminate_statement; the first round and the bound on rounds are proved)",
+        "later re-pagination rounds re-using up-to-date pages (statement C01_later_rounds_terminate_statement; proved: the first round, the bound on rounds, and that the re-use branch of the repaired loop never indexes a page the previous round does not have, C01_reuse_index_in_range; the unchanged loop is refuted, C01_later_round_orig_refuted)",
+        "page traces record the first pagination round only; nested footnotes (a footnote placed on a blank page can report the footnotes it contains): check 8 counts the footnotes not placed yet, the theorem's hypothesis counts the reported ones",
     ],
     "codes": {"1": "the implementation panicked (site = first /repo frame) where the specification says the call returns",
               "3": "the worker process died (stack exhaustion / out of memory / unrecovered panic in another goroutine)",
